@@ -70,6 +70,12 @@ class LogControlStream(ControlStream):
 wftpclient.ControlStream = LogControlStream
 
 
+# what a server may say when a transfer failed; a bare CR inside the line, followed by what looks like a positive completion, is
+# still part of this ONE negative reply line (or an error of the reply - never a 226)
+ABORT_TEXTS = ('transfer aborted', 'transfer failed', 'Failure writing network stream.\r226 Transfer complete.',
+               'aborted\r226-Transfer complete', 'failed (226 Transfer complete was not reached)')
+
+
 def gen_text(tape, allow_special=True):
     parts = []
     for _ in range(tape.between(1, 3, 'txt.n')):
@@ -355,7 +361,7 @@ class _Control:
             if cut:
                 dc.send(content[:cut])
             dc.reset()
-            self.reply(v + '.end', h.stape.choice((426, 451), 'abort.code'), 'transfer aborted')
+            self.reply(v + '.end', h.stape.choice((426, 451), 'abort.code'), h.stape.choice(ABORT_TEXTS, 'abort.text'))
             h.r.probes['data_reset'] += 1
             h.r.faults['ftp_data_reset'] += 1
         elif mode == 'negative_completion':
@@ -364,7 +370,7 @@ class _Control:
                 dc.send(content[:cut])
             dc.finish()
             info['eof'] = True
-            self.reply(v + '.end', h.stape.choice((426, 451, 552), 'abort.code'), 'transfer failed')
+            self.reply(v + '.end', h.stape.choice((426, 451, 552), 'abort.code'), h.stape.choice(ABORT_TEXTS, 'abort.text'))
             h.r.probes['negative_completion'] += 1
             h.r.faults['ftp_negative_completion'] += 1
         elif mode == 'no_completion':
@@ -551,7 +557,10 @@ def judge(r, fetches, outcomes, h, replies, sends, files, label=''):
                           % (len(got), sess.conn.id, len(ref), label))
                 break
             rc, rlines = ref[i]
-            if code != rc or (text or '').count('\r\n') + 1 != len(rlines):
+            # (a bare CR inside a line: the client shows it as a line break in the text, for every segmentation alike; the
+            # statement asks for the same assembly whatever the segmentation, so only the count of CRLF-ended lines is compared)
+            nclient = (text or '').count('\r\n') + 1 - sum(ln.count(b'\r') for ln in rlines)
+            if code != rc or nclient != len(rlines):
                 r.violate(P, 'reply-assembly', 'reply-differs', 'connection %d reply %d: client (%r, %d lines) vs reference (%r, %d lines: %r)%s'
                           % (sess.conn.id, i, code, (text or '').count('\r\n') + 1, rc, len(rlines), rlines[:4], label))
                 break
